@@ -51,6 +51,7 @@ def gen_script(rng, tier, focus=None):
     pre = rng.random() < 0.25          # issue some calls before the client finished opening
     open_delay = rng.choice([0, 0, 30, 300]) if pre else 0
     n = rng.choice([4, 8, 14, 20])
+    default_T = rng.choice([0, 0, 0, 57, 143])      # some clients are configured with a short default timeout
     ncalls = 0
     if not pre:
         steps.append(['adv', 50])
@@ -58,7 +59,7 @@ def gen_script(rng, tier, focus=None):
         r = rng.random()
         if r < 0.45:
             T = rng.choice([2, 5, 10, 30]) * 10 + rng.randrange(1, 10)
-            steps.append(['call', T])
+            steps.append(['call', 0 if default_T and rng.random() < 0.4 else T])
             ncalls += 1
         elif r < 0.7:
             steps.append(['adv', rng.choice([1, 2, 5, 11, 31, 120])])
@@ -79,8 +80,11 @@ def gen_script(rng, tier, focus=None):
         pool = rng.choice([[1, 1, 100], [0, 2, 1], [1, 2, 2], [1, 1, 0]])      # (min, max, max_queue): saturable pools
     # 'aged': a long-lived multiplexed connection whose tag pool has handed out more than 2^16 tags (timed-out calls
     # keep theirs for good) and got a few back: new calls get tags that need all three tag bytes, next to small ones
-    return {'stack': stack, 'neps': neps, 'open_delay': open_delay, 'pool': pool, 'steps': steps,
-            'aged': stack == 'mux' and rng.random() < 0.2}
+    sc = {'stack': stack, 'neps': neps, 'open_delay': open_delay, 'pool': pool, 'steps': steps,
+          'aged': stack == 'mux' and rng.random() < 0.2}
+    if default_T:
+        sc['default_T'] = default_T
+    return sc
 
 
 def shrink(script):
@@ -313,7 +317,9 @@ def run_script(script, comp='e2e'):
             builder = builder.ReplaceRole(SinkRole.Pool, WatermarkPoolSink.Builder(
                 min_watermark=mn, max_watermark=mx, max_queue_len=mq))
             tags.add('small-pool')
-        client = builder.SetUri(uri).SetTimeout(10).SetOpenTimeout(0).Build()
+        # the client-wide default timeout: a 'call' step with T = 0 passes no timeout of its own and relies on it
+        default_T = script.get('default_T', 10000)
+        client = builder.SetUri(uri).SetTimeout(default_T / 1000.0).SetOpenTimeout(0).Build()
         disp = client._dispatcher
         dispatch.AsyncResult = CountingAR
         opened = [False]
@@ -326,12 +332,16 @@ def run_script(script, comp='e2e'):
         for st in script['steps']:
             kind = st[0]
             if kind == 'call':
-                T = st[1]
+                T = st[1] or default_T
                 ev('issue', ncalls, T * 1000, now(), not opened[0])
                 if not opened[0]:
                     tags.add('pre-open')
                 issuing[0] = ncalls
-                r = disp.DispatchMethodCall('hi', ('a%d' % ncalls,), {}, timeout=T / 1000.0)
+                if st[1]:
+                    r = disp.DispatchMethodCall('hi', ('a%d' % ncalls,), {}, timeout=T / 1000.0)
+                else:
+                    tags.add('default-timeout')
+                    r = disp.DispatchMethodCall('hi', ('a%d' % ncalls,), {})
                 issuing[0] = None
                 if getattr(r, 'k', None) != ncalls:
                     # the caller's result was not made by the dispatcher itself: observe its completion
